@@ -27,7 +27,7 @@ DECODABLE = ["vector", "dict_vec", "tuple"]  # no image leaves: BatchNorm would 
 
 def gen(prop: str, rng: random.Random, tier: str) -> Dict[str, Any]:
     algo = rng.choice(["PPO", "PPO", "IPPO", "IPPO"])
-    mode = "loop" if (algo == "PPO" and rng.random() < 0.3) else "learn"
+    mode = "loop" if (rng.random() < (0.3 if algo == "PPO" else 0.2)) else "learn"
     T = rng.randint(1, 12)
     E = rng.choice([1, 2, 3, 4])
     case: Dict[str, Any] = {
@@ -42,6 +42,7 @@ def gen(prop: str, rng: random.Random, tier: str) -> Dict[str, Any]:
     if algo == "IPPO":
         case["groups"] = rng.choice([[1], [2], [3], [1, 1], [2, 1], [1, 2], [3, 2], [12], [11, 2]])  # agents per shared policy ("x_10" sorts before "x_2")
         case["id_order"] = rng.choice(["natural", "natural", "reversed", "interleaved"])  # order in which the environment lists its agents
+        case["ma_vectorised"] = rng.random() < 0.6  # loop mode: vectorised environment, or a single parallel environment that the loop resets itself
     if not case["vectorised"]:
         case["E"] = 1
     case["ops"] = [{"op": "learn", "seed": rng.getrandbits(31)} for _ in range(1 if mode == "loop" else rng.choice([1, 1, 2]))]
@@ -129,7 +130,9 @@ def run(prop: str, case: Dict[str, Any]) -> Dict[str, Any]:
     ctx.log("world", "config", {k: case.get(k) for k in ("algo", "mode", "T", "E", "obs_kind", "act_kind", "gamma", "gae_lambda", "done_pattern", "groups", "id_order", "batch_size",
                                                           "chunks", "max_len", "ending", "len_seed", "seed")})
     try:
-        if case["algo"] == "PPO" and case["mode"] == "loop":
+        if case["algo"] == "IPPO" and case["mode"] == "loop":
+            _run_ippo_loop(ctx, case, loc)
+        elif case["algo"] == "PPO" and case["mode"] == "loop":
             _run_ppo_loop(ctx, case, loc)
         elif case["algo"] == "PPO":
             _run_ppo_learn(ctx, case, loc)
@@ -337,6 +340,93 @@ def _run_ppo_loop(ctx, case, loc) -> None:
     finally:
         ppo_mod.get_experiences_samples = rec.real
         top.time = real_time
+
+
+# ---- IPPO, loop level: the real train_multi_agent_on_policy ---------------------------------------
+def _run_ippo_loop(ctx, case, loc) -> None:
+    """What the loop hands to IPPO.learn must put every episode boundary where the environment had it: dones[t] (t >= 1) is the end flag of
+    the step before, next_done the end flag of the last step of the rollout - for every agent and sub-environment, with a vectorised environment
+    (auto-reset inside) and with a single parallel environment that the loop resets itself. The recursion on these inputs is what the learn mode checks."""
+    import agilerl.training.train_multi_agent_on_policy as tmo
+    from agilerl.algorithms import IPPO
+    from sim.envs import ScriptPZ
+    from sim.trainsim import ScriptPZVec, Tracker, instrumented
+
+    vect = bool(case.get("ma_vectorised", True))
+    E = case["E"] if vect else 1
+    n_agents = max(2, min(3, sum(case.get("groups", [2]))))
+    tr = Tracker()
+    truth: List[Dict[str, np.ndarray]] = []  # per training-phase step: agent -> end flags per sub-environment
+    if vect:
+        spec = {"obs_kind": case["obs_kind"], "act_kind": case["act_kind"], "len_seed": case["len_seed"], "max_len": case["max_len"], "ending": "term" if case["ending"] == "mixed" else case["ending"],
+                "n_agents": n_agents, "homogeneous": True}
+        env = ScriptPZVec(spec, E, tr)
+    else:
+        spec = {"n_agents": n_agents, "obs_kind": "vec_f32", "act_kind": case["act_kind"], "ending": case["ending"], "len_seed": case["len_seed"], "max_len": case["max_len"], "leave": False}
+        env = ScriptPZ(spec, 0, None)
+    real_step = env.step
+
+    def step(actions):
+        out = real_step(actions)
+        if not vect:
+            tr.clock.advance(0.01)  # (the vectorised scripted environment advances the virtual clock itself)
+        if tr.phase == "train":
+            term, trunc = out[2], out[3]
+            truth.append({a: np.atleast_1d(np.logical_or(np.asarray(term[a]), np.asarray(trunc[a]))).astype(np.int8) for a in term})
+        return out
+
+    env.step = step
+    ids = list(env.possible_agents)
+    obs_spaces = [env.observation_space(a) for a in ids]
+    act_spaces = [env.action_space(a) for a in ids]
+    seed_all(case["seed"])
+    learn_step = max(2, case["T"])
+    agent = IPPO(obs_spaces, act_spaces, agent_ids=ids, batch_size=case["batch_size"], lr=1e-3, gamma=case["gamma"], gae_lambda=case["gae_lambda"], update_epochs=1, learn_step=learn_step,
+                 net_config={"latent_dim": 16, "head_config": {"hidden_size": [16]}})
+    rollouts: List[Tuple[int, Any]] = []
+    real_learn = agent.learn
+
+    def learn(experiences):
+        rollouts.append((len(truth), experiences))
+        return real_learn(experiences)
+
+    agent.learn = learn
+    chunks = case.get("chunks", 1)
+    per_roll = -(-learn_step // E) * E
+    saved_time = getattr(tmo, "time", None)
+    tmo.time = tr.clock
+    try:
+        with instrumented(tr, [type(agent)]):
+            tmo.train_multi_agent_on_policy(env, "script", "IPPO", [agent], max_steps=per_roll * chunks, evo_steps=per_roll * chunks, eval_steps=2, eval_loop=1,
+                                            tournament=None, mutation=None, wb=False, verbose=False)
+    finally:
+        tmo.time = saved_time
+    ctx.log("ippo", "train_multi_agent_on_policy", {"vectorised": vect, "rollouts": len(rollouts), "steps": len(truth)})
+    loc = dict(loc, vectorised=vect)
+    for r, (n_after, exp) in enumerate(rollouts):
+        dones, next_done = exp[4], exp[7]
+        T = len(next(iter(dones.values())))
+        first = n_after - T
+        if first < 0:
+            raise kernel.HarnessError(f"rollout {r}: {T} recorded steps but only {n_after} environment steps so far")
+        for a in ids:
+            for t in range(1, T):
+                want = truth[first + t - 1][a]
+                got = np.atleast_1d(np.asarray(dones[a][t])).astype(np.int8).reshape(-1)
+                if got.shape != want.shape or (got != want).any():
+                    ctx.report("C17/loop_done_misaligned", f"rollout {r}, agent {a}: the loop recorded dones[{t}] = {got.tolist()}, the episodes of the sub-environments ended at the step before: "
+                                                           f"{want.tolist()} (T={T}, envs={E}, vectorised={vect}) - estimates of the steps before that end would bootstrap across it", **loc)
+                    return
+            want = truth[first + T - 1][a]
+            got = np.atleast_1d(np.asarray(next_done[a])).astype(np.int8).reshape(-1)
+            if got.shape != want.shape or (got != want).any():
+                ctx.report("C17/loop_done_misaligned", f"rollout {r}, agent {a}: next_done = {got.tolist()}, the last step of the rollout ended episodes {want.tolist()}", **loc)
+                return
+        if any(truth[first + t][a].any() for t in range(T - 1) for a in ids):
+            ctx.probe("episode_end_inside_rollout")
+    ctx.probe("ippo_loop_rollouts", len(rollouts))
+    ctx.nontrivial = len(rollouts) >= 1 and len(truth) >= 2
+    ctx.state(("IPPO-loop", vect, E, learn_step, case["ending"], case["max_len"]))
 
 
 # ---- IPPO, learn level ------------------------------------------------------------------------
